@@ -91,12 +91,10 @@ ASSUMPTIONS = [
     'tcp_listener.close() (asyncssh\'s SSHListener classes; an application-supplied listener object whose close() '
     'raises would abort SSHConnection._cleanup the way the error handler did before 4a6a160), agent / agent '
     'listener close(), tunnel.close(), auth.cancel(), timer.cancel(), writer.close(), conn.detach_x11_listener()',
-    'AssertionError out of _flush_recv_buf / _process_close when the session was already detached is listed in '
-    '`raises` (nothing hangs) - it is a robustness defect reported as F-C09-3 '
-    '(notes/findings/c09_resume_after_conn_lost_assert.py), to be dropped from `raises` once repaired',
     'Specs used as callee contracts carry a `frame` obligation (no declared field outside `modifies` changes)',
-    'not covered (see DESIGN C09): the other _force_close call sites (abort, disconnect, _process_disconnect, '
-    'timers, _reap_task, internal_error), listener.py close paths (C20), SFTP server handler cleanup, '
+    'not covered (see DESIGN C09): the other _force_close call sites (disconnect, _process_disconnect, '
+    'timers, _reap_task, internal_error itself), listener.py close paths (C20), SFTP server handler cleanup, '
+    'SSHClientChannel.create before its final request (only the tail from `if command:` is a region Spec), '
     'SSHClientChannel.create / _open_forward after the open is confirmed (session attached by the opener task: the '
     'order "open confirmed, connection cleanup, opener resumes" is excluded by hand - after _force_close the receive '
     'sequence number is no longer advanced (_finish_recv_packet), so no later packet of the same segment is accepted, '
@@ -252,6 +250,8 @@ C9_CHAN_FIELDS = dict(CHAN_FIELDS, **{
     'ghost_cleanup_sched': 'int',         # number of loop.call_soon(self._cleanup, ...)
     'ghost_cleanup_runs': 'int',          # number of direct self._cleanup() calls
     'ghost_close_sent': 'int',            # number of MSG_CHANNEL_CLOSE packets sent
+    'ghost_final_told': 'bool',           # within the running _cleanup: session.connection_lost() has been called
+    'ghost_eof_told': 'int',              # number of session.eof_received() callbacks
 })
 C9_CHAN_CLASSES = {'SSHChannel': C9_CHAN_FIELDS, 'Session': {}, 'Decoder': {}, 'Conn': {}}
 C9_COUNTERS = ['ghost_session_lost', 'ghost_unregistered', 'ghost_cleanup_sched', 'ghost_cleanup_runs',
@@ -273,11 +273,28 @@ def chan_registry_inv(c, new=False):
 
 def session_lost_stub(cx):
     ev = ('session_lost', (cx.recv,) + tuple(cx.args))
-    sets = on_self(cx, ghost_session_lost=bump(cx, 'ghost_session_lost'))
+    sets = on_self(cx, ghost_session_lost=bump(cx, 'ghost_session_lost'), ghost_final_told=VBool(True))
     return [Out(osets=sets, event=ev), Out(osets=sets, exc=VExc('Exception'), event=ev)]
 
 
-session_lost_stub.modifies = ('ghost_session_lost',)
+session_lost_stub.modifies = ('ghost_session_lost', 'ghost_final_told')
+
+
+def before_final(stub):
+    """legal callback order, stated in state so that it also holds inside loop bodies (whose events the exit path
+    does not carry): what `stub` stands for happens BEFORE the final connection_lost notification of this cleanup"""
+    def wrapped(cx):
+        cx.require('before-the-final-notification', z3.Not(cx.selff('ghost_final_told').z))
+        return stub(cx)
+    wrapped.modifies = getattr(stub, 'modifies', ())
+    if hasattr(stub, 'spec_getter'):
+        wrapped.spec_getter = stub.spec_getter
+    return wrapped
+
+
+def final_not_told_yet(ex, st):
+    """ghost_final_told is a ghost variable local to one run of _cleanup: False at its entry"""
+    st.set_field(ex.self_ref, 'ghost_final_told', VBool(False))
 
 
 def remove_channel_stub(cx):
@@ -332,17 +349,21 @@ CHAN_CLEANUP_POST = [
 ]
 
 CHAN_CLEANUP_STUBS = dict(FUT_STUBS, **{
+    '*.set_result': before_final(FUT_STUBS['*.set_result']),
+    '*.set_exception': before_final(FUT_STUBS['*.set_exception']),
     'self._session.connection_lost': session_lost_stub,
     'self._close_event.set': event_set_stub,
     'self._conn.detach_x11_listener': noop('detach_x11'),
     'self._conn.remove_channel': remove_channel_stub,
 })
 CHAN_CLEANUP_MODIFIES = ['_open_waiter', '_request_waiters', '_session', '_conn', '_send_chan', '_recv_chan',
-                         'ghost_done', 'ghost_close_event_set', 'ghost_session_lost', 'ghost_unregistered']
+                         'ghost_done', 'ghost_close_event_set', 'ghost_session_lost', 'ghost_unregistered',
+                         'ghost_final_told']
 
 chan_cleanup = Spec(
     PROP, 'channel', 'SSHChannel._cleanup', self_class='SSHChannel',
     params=dict(exc='opt[opaque:Exc]'), classes=C9_CHAN_CLASSES, stubs=CHAN_CLEANUP_STUBS,
+    setup=final_not_told_yet,
     loops={1: LoopSpec(header='for waiter in self._request_waiters', invariant=cleanup_loop_inv,
                        modifies=['ghost_done'])},
     requires=lambda c: chan_registry_inv(c),
@@ -370,6 +391,7 @@ def cleaned(c):
 chan_cleanup_again = Spec(
     PROP, 'channel', 'SSHChannel._cleanup', self_class='SSHChannel',
     params=dict(exc='opt[opaque:Exc]'), classes=C9_CHAN_CLASSES, stubs=CHAN_CLEANUP_STUBS,
+    setup=final_not_told_yet,
     loops={1: LoopSpec(header='for waiter in self._request_waiters', invariant=cleanup_loop_inv,
                        modifies=['ghost_done'])},
     requires=cleaned, cases=[('second-run', {})],
@@ -623,6 +645,64 @@ def deliver_stub(cx):
 deliver_stub.modifies = ('_recv_window', '_recv_paused')
 
 
+def eof_told_stub(cx):
+    """session.eof_received(): counted; its answer (keep the channel open for sending?) is arbitrary"""
+    return [Out(ret=cx.fresh('bool', 'keep_open'), osets=on_self(cx, ghost_eof_told=bump(cx, 'ghost_eof_told')),
+                event=('eof_told', ()))]
+
+
+eof_told_stub.modifies = ('ghost_eof_told',)
+
+
+def ordered_deliver_stub(cx):
+    """legal callback order (RFC 4254 5.3: no data after EOF): data_received never follows eof_received"""
+    cx.require('no-data-after-eof-was-told', cx.selff('ghost_eof_told').z == 0)
+    return deliver_stub(cx)
+
+
+ordered_deliver_stub.modifies = ('_recv_window', '_recv_paused')
+
+
+def chan_eof_inv(c, new=False):
+    """the session is told EOF at most once, only when nothing is left to deliver, and never while the receive
+    side is still open / waiting to deliver (data is accepted in state 'open' only: _process_data)"""
+    g = c.new if new else c.old
+    t = g('ghost_eof_told')
+    return z3.And(t >= 0, t <= 1,
+                  z3.Implies(t == 1, z3.And(z3.Length(g('_recv_buf')) == 0,
+                                            one_of(g('_recv_state'), ['eof', 'close_pending', 'closed']))),
+                  z3.Implies(one_of(g('_recv_state'), ['open', 'eof_pending']), t == 0))
+
+
+def is_starting(c, new=True):
+    st = c.new_state if new else c.old_state
+    v = c.newv('_recv_paused') if new else c.oldv('_recv_paused')
+    return c.ex.veq(st, v, VStr('starting'))
+
+
+def starting_is_truthy(c):
+    """definitional: a value equal to the non-empty string 'starting' is truthy (the value of `_recv_paused` is of
+    unknown dynamic type in the model: bool or str)"""
+    return [z3.Implies(is_starting(c), c.truthy(c.newv('_recv_paused'))),
+            z3.Implies(is_starting(c, new=False), c.truthy(c.oldv('_recv_paused'), c.old_state))]
+
+
+def eof_pending_has_reason(c):
+    """the peer's EOF stays pending only behind a paused reader with undelivered data, or while the session has not
+    been started ('starting'): then resume_reading() / _start_reading() deliver it.  On EVERY exit (see
+    close_pending_has_data)"""
+    return z3.Implies(c.new('_recv_state') == z3.StringVal('eof_pending'),
+                      z3.And(c.truthy(c.newv('_recv_paused')),
+                             z3.Or(z3.Length(c.new('_recv_buf')) > 0, is_starting(c))))
+
+
+def eof_told_once(c):
+    """the session hears eof_received() exactly once, at the moment the receive side leaves eof_pending"""
+    left = z3.And(c.old('_recv_state') == z3.StringVal('eof_pending'),
+                  c.new('_recv_state') != z3.StringVal('eof_pending'))
+    return delta(c, 'ghost_eof_told') == b2i(z3.And(left, attached(c, '_session')))
+
+
 def write_eof_stub(cx):
     """write_eof() from 'open': the send side becomes eof_pending or (buffer already flushed) eof"""
     cx.require('send-side-open', cx.selff('_send_state').z == z3.StringVal('open'))
@@ -639,9 +719,12 @@ def decoder_inv(c):
 
 
 def close_pending_has_data(c):
-    """a peer CLOSE stays pending only while undelivered data is buffered (so that resume_reading(), close() or
-    abort() - the only things that can still happen locally - complete it)"""
-    return z3.Implies(c.new('_recv_state') == CLOSE_PENDING, z3.Length(c.new('_recv_buf')) > 0)
+    """a peer CLOSE stays pending only behind a paused reader with undelivered data buffered (so that
+    resume_reading(), close() or abort() - the only things that can still happen locally - complete it).
+    Must hold on EVERY exit: an exception that leaves the receive side close_pending with nothing buffered, or with
+    reading un-paused, leaves nobody to complete the close (wait_closed() and every reader hang)"""
+    return z3.Implies(c.new('_recv_state') == CLOSE_PENDING,
+                      z3.And(z3.Length(c.new('_recv_buf')) > 0, c.truthy(c.newv('_recv_paused'))))
 
 
 def recv_step(c):
@@ -652,9 +735,9 @@ def recv_step(c):
 
 
 FLUSH_RECV_STUBS = {
-    'self._deliver_data': reentrant(deliver_stub),
+    'self._deliver_data': reentrant(ordered_deliver_stub),
     'self._decoder.decode': may_raise(ret('str', 'decoded'), 'UnicodeDecodeError'),
-    'self._session.eof_received': reentrant(ret('bool', 'keep_open')),
+    'self._session.eof_received': reentrant(eof_told_stub),
     'self.write_eof': write_eof_stub,
     'self._loop.call_soon': call_soon_stub,
 }
@@ -675,7 +758,13 @@ def flush_recv_inv(c):
     """while data is delivered the handshake only moves by what a re-entrant close()/abort() of the session may
     do: the step relation hs_step / close_sent_once / recv_step holds from loop entry to now"""
     e = SinceLoopEntry(c)
-    return z3.And(hs_inv(c, new=True), hs_step(e), close_sent_once(e), recv_step(e))
+    return z3.And(hs_inv(c, new=True), hs_step(e), close_sent_once(e), recv_step(e),
+                  # (delivery itself never moves the receive side; only a re-entrant close()/abort() completes a
+                  # pending peer close)
+                  z3.Or(c.new('_recv_state') == e.old('_recv_state'),
+                        z3.And(e.old('_recv_state') == CLOSE_PENDING, c.new('_recv_state') == CLOSED)),
+                  chan_eof_inv(c, new=True), c.new('ghost_eof_told') == c.at_entry('ghost_eof_told'),
+                  isn(c.newv('_session')) == isn(e.c.ex.get_field(e.c.loop_entry, e.c.self_ref, '_session')))
 
 
 flush_recv = Spec(
@@ -683,20 +772,22 @@ flush_recv = Spec(
     params=dict(exc='opt[opaque:Exc]'), classes=C9_CHAN_CLASSES, stubs=FLUSH_RECV_STUBS, falsy_sorts={'Any'},
     loops={1: LoopSpec(header='self._recv_buf and (not self._recv_paused)', invariant=flush_recv_inv,
                        variant=lambda c: z3.Length(c.new('_recv_buf')))},
-    requires=lambda c: z3.And(hs_inv(c), decoder_inv(c)),
+    requires=lambda c: z3.And(hs_inv(c), decoder_inv(c), chan_eof_inv(c)),
+    lemmas=starting_is_truthy,
     modifies=sorted({'_recv_buf', '_recv_window', '_recv_paused', '_recv_state', '_send_state',
-                     'ghost_cleanup_sched'} | set(CLOSE_MODIFIES)),
-    ensures=[('close-stays-pending-only-while-data-is-buffered', close_pending_has_data),
-             ('cleanup-gets-the-error', lambda c: z3.And(*[
+                     'ghost_cleanup_sched', 'ghost_eof_told'} | set(CLOSE_MODIFIES)),
+    ensures=[('cleanup-gets-the-error', lambda c: z3.And(*[
                  c.eq(e[1][0], c.argv('exc')) for e in c.events('sched_cleanup')]))],
-    always=[('one-cleanup-per-close', hs_step),
+    always=[('close-stays-pending-only-while-data-is-buffered', close_pending_has_data),
+            ('eof-stays-pending-only-behind-undelivered-data', eof_pending_has_reason),
+            ('eof-told-exactly-once-when-reached', eof_told_once),
+            ('eof-inv', lambda c: chan_eof_inv(c, new=True)),
+            ('one-cleanup-per-close', hs_step),
             ('recv-state-step', recv_step),
             ('class-inv', lambda c: hs_inv(c, new=True)),
             # (a session callback may close the channel: still at most one CLOSE packet)
             ('close-packet-exactly-once', close_sent_once)],
     raises={'ProtocolError': True,
-            # only after a cleanup has already detached the session (connection closed under a paused reader)
-            'AssertionError': lambda c: isn(c.oldv('_session')),
             # whatever the session's data_received / eof_received raised
             'Exception': True})
 
@@ -706,7 +797,7 @@ process_close = Spec(
     classes=dict(C9_CHAN_CLASSES, **PACKET_CLASSES), inline=dict(PACKET_INLINE), truthy=PACKET_TRUTHY,
     stubs={'self._close_send': contract_stub(lambda: close_send),
            'self._flush_recv_buf': contract_stub(lambda: flush_recv)},
-    requires=lambda c: z3.And(hs_inv(c), decoder_inv(c), packet_wf(c, c.argv('packet'))),
+    requires=lambda c: z3.And(hs_inv(c), decoder_inv(c), chan_eof_inv(c), packet_wf(c, c.argv('packet'))),
     modifies=sorted(set(close_send.modifies) | set(flush_recv.modifies)),
     ensures=[('our-close-sent-exactly-once', close_sent_once),
              ('send-side-closed', lambda c: c.new('_send_state') == CLOSED),
@@ -715,8 +806,7 @@ process_close = Spec(
              ('one-cleanup-per-close', hs_step),
              ('class-inv', lambda c: hs_inv(c, new=True))],
     always=[('never-two-cleanups', lambda c: delta(c, 'ghost_cleanup_sched') <= 1)],
-    raises={'ProtocolError': True, 'PacketDecodeError': True, 'AssertionError': lambda c: isn(c.oldv('_session')),
-            'Exception': True})
+    raises={'ProtocolError': True, 'PacketDecodeError': True, 'Exception': True})
 
 
 # ------------------------------------------------------------------------------------------------ stream
@@ -977,6 +1067,7 @@ C9_CONN_FIELDS = {
     'ghost_cleanup_sched': 'int', 'ghost_abort_sched': 'int',
     'ghost_owner_lost': 'int', 'ghost_auth_cancelled': 'int', 'ghost_error_handler_calls': 'int',
     'ghost_tunnel_closed': 'int', 'ghost_timers_cancelled': 'int',
+    'ghost_final_told': 'bool',           # within the running _cleanup: owner.connection_lost() has been called
 }
 C9_CONN_CLASSES = dict({'SSHConnection': C9_CONN_FIELDS, 'Transport': {}, 'Auth': {}, 'Owner': {}, 'Tunnel': {},
                         'Timer': {}}, **PACKET_CLASSES)
@@ -1224,19 +1315,30 @@ def all_listeners_closed(c):
 # SSHConnection._cleanup used to call the application's error handler unprotected; when it raised, the waiter was
 # not resolved, the owner not told and _close_event never set (wait_closed() hung).  The stub therefore has the
 # raising outcome: without the try/except around the call `SSHConnection._cleanup#signals(Exception)` is refuted.
+def owner_lost_stub(cx):
+    sets = on_self(cx, ghost_owner_lost=bump(cx, 'ghost_owner_lost'), ghost_final_told=VBool(True))
+    ev = ('owner_lost', tuple(cx.args))
+    return [Out(osets=sets, event=ev), Out(osets=sets, exc=VExc('Exception'), event=ev)]
+
+
+owner_lost_stub.modifies = ('ghost_owner_lost', 'ghost_final_told')
+
+
 CONN_CLEANUP_STUBS = dict(FUT_STUBS, **{
     # by the contracts proved for the two helpers (Specs cancel_timer_specs)
     'self._cancel_keepalive_timer': contract_stub(lambda: cancel_timer_specs['_keepalive_timer']),
     'self._cancel_login_timer': contract_stub(lambda: cancel_timer_specs['_login_timer']),
     'self._channels.values': values_stub, 'self._local_listeners.values': values_stub,
     'list': list_of_values_stub,
-    'chan.process_connection_close': chan_close_stub,
-    'listener.close': listener_close_stub,
-    'self._process_global_response': contract_stub(lambda: global_response),
-    'self._auth.cancel': counting('ghost_auth_cancelled', 'auth_cancelled'),
+    '*.set_result': before_final(FUT_STUBS['*.set_result']),
+    '*.set_exception': before_final(FUT_STUBS['*.set_exception']),
+    'chan.process_connection_close': before_final(chan_close_stub),
+    'listener.close': before_final(listener_close_stub),
+    'self._process_global_response': before_final(contract_stub(lambda: global_response)),
+    'self._auth.cancel': before_final(counting('ghost_auth_cancelled', 'auth_cancelled')),
     # application callback (listen(..., error_handler=...)): it can raise anything
-    'self._error_handler': counting('ghost_error_handler_calls', 'error_handler', exc_too=True),
-    'self._owner.connection_lost': counting('ghost_owner_lost', 'owner_lost', exc_too=True),
+    'self._error_handler': before_final(counting('ghost_error_handler_calls', 'error_handler', exc_too=True)),
+    'self._owner.connection_lost': owner_lost_stub,
     'self._tunnel.close': counting('ghost_tunnel_closed', 'tunnel_closed'),
     'self._close_event.set': event_set_stub,
 })
@@ -1255,7 +1357,7 @@ cancel_timer_specs = {
 conn_cleanup = Spec(
     PROP, 'connection', 'SSHConnection._cleanup', self_class='SSHConnection',
     params=dict(exc='opt[opaque:Exc]'), classes=C9_CONN_CLASSES, stubs=CONN_CLEANUP_STUBS,
-    inline=dict(PACKET_INLINE),
+    inline=dict(PACKET_INLINE), setup=final_not_told_yet,
     loops={
         1: LoopSpec(header='for chan in list(self._channels.values())', invariant=chans_loop_inv),
         2: LoopSpec(header='for listener in list(self._local_listeners.values())', invariant=listeners_loop_inv),
@@ -1425,7 +1527,7 @@ CONN_CLEANUP_MODIFIES = [
     '_keepalive_timer', '_login_timer', '_channels', '_local_listeners', '_global_request_waiters', '_auth',
     '_error_handler', '_acceptor', '_wait', '_owner', '_tunnel', '_inpbuf', 'ghost_done', 'ghost_close_event_set',
     'ghost_listener_closed', 'ghost_owner_lost', 'ghost_auth_cancelled', 'ghost_error_handler_calls',
-    'ghost_tunnel_closed', 'ghost_timers_cancelled']
+    'ghost_tunnel_closed', 'ghost_timers_cancelled', 'ghost_final_told']
 conn_cleanup.modifies = CONN_CLEANUP_MODIFIES
 
 
@@ -1915,6 +2017,9 @@ sftp_cleanup = Spec(
             delta(c, 'ghost_base_cleanups') == 1, z3.BoolVal(len(c.events('base_cleanup')) == 1),
             *[c.eq(e[1][0], c.argv('exc')) for e in c.events('base_cleanup')])),
         ('writer-closed', lambda c: isn(c.newv('_writer'))),
+        # (state-only forms, usable at call sites)
+        ('base-cleanup-exactly-once', lambda c: delta(c, 'ghost_base_cleanups') == 1),
+        ('reader-loop-stops', lambda c: z3.Implies(attached(c, '_writer'), isn(c.newv('_reader')))),
         ('class-inv', lambda c: sftp_registry_inv(c, new=True)),
     ],
     raises={})
@@ -2160,17 +2265,35 @@ def _bind_region_locals(ex, st):
     st.env.setdefault('auth_methods', ex.fresh(st, parse_type('seq[bytes]'), 'auth_methods'))
 
 
+def woken_by_its_own_event(phase):
+    """from the protocol, not from the code: which protocol event ends which waiting phase of connect()/listen():
+    'kex' - the first key exchange completes (send_newkeys); 'auth' - authentication succeeds (server:
+    send_userauth_success, client: USERAUTH_SUCCESS); 'auth_methods' - the server's answer to the 'none' probe
+    arrives (USERAUTH_FAILURE with the method list, or USERAUTH_SUCCESS of the probe itself)"""
+    def clause(c):
+        mine = c.eq(c.oldv('_wait'), VStr(phase))
+        w = c.oldv('_waiter')
+        return z3.And(
+            z3.Implies(mine, when_set(w, lambda f: z3.Implies(
+                z3.Not(cancelled_fn(f.z)), z3.And(done_in(c.newv('ghost_done'), f.z), isn(c.newv('_wait')))))),
+            z3.Implies(z3.Not(mine), z3.And(z3.BoolVal(len(c.events('resolve')) == 0),
+                                            c.eq(c.newv('_wait'), c.oldv('_wait')))))
+    return ('connect-waiter-of-this-phase-woken-by-this-event', clause)
+
+
 _PKT_PARAMS = {'_pkttype': 'int', '_pktid': 'int', 'packet': 'any'}
-for _fn, _n, _params in [('send_newkeys', 0, {'k': 'bytes', 'h': 'bytes'}), ('send_userauth_success', 0, {}),
-                         ('_process_userauth_failure', 0, _PKT_PARAMS),
-                         ('_process_userauth_success', 0, _PKT_PARAMS), ('_process_userauth_success', 1, _PKT_PARAMS)]:
+for _fn, _n, _params, _phase in [
+        ('send_newkeys', 0, {'k': 'bytes', 'h': 'bytes'}, 'kex'), ('send_userauth_success', 0, {}, 'auth'),
+        ('_process_userauth_failure', 0, _PKT_PARAMS, 'auth_methods'),
+        ('_process_userauth_success', 0, _PKT_PARAMS, 'auth_methods'),
+        ('_process_userauth_success', 1, _PKT_PARAMS, 'auth')]:
     Spec(PROP, 'connection', 'SSHConnection.' + _fn, self_class='SSHConnection', params=_params,
          classes={'SSHConnection': WAITER_SITE_FIELDS}, stubs=dict(FUT_STUBS), region=waiter_site(_n),
          setup=_bind_region_locals,
          cases=[(f'waiter-site-{_n}', {})],
          requires=lambda c: z3.And(conn_waiter_inv(c),
                                    registry_ok(c.oldv('ghost_done'), c.old('_global_request_waiters'))),
-         ensures=waiter_site_post(), raises={})
+         ensures=waiter_site_post() + [woken_by_its_own_event(_phase)], raises={})
 
 
 # ---- frames: the engine havocs exactly `modifies` when a Spec is used through contract_stub and does not check
@@ -2529,3 +2652,449 @@ ASSUMPTIONS.append(
     'to redirected writers, then super().eof_received()) is taken as the base method; reader.close()/'
     'writer.close() are effect-free for the session at that moment (the own connection_lost of the pipe arrives '
     'later, when the reader is no longer registered)')
+
+
+# ------------------------------------------------------------------------------------------------
+# SFTP receive loop: however the session ends (EOF, a decoding error, the connection's error - WHATEVER exception
+# the connection was closed with, SSHConnection.internal_error passes on any exception type), the handler's
+# _cleanup must run, because it is the only thing that fails the outstanding requests.
+def sftp_recv_packet_stub(cx):
+    """await self.recv_packet(): a packet, or what the reader raises: IncompleteReadError (an EOFError) on EOF, or the
+    exception the channel/connection was closed with - any exception class"""
+    p = cx.fresh('opaque:SFTPPacket', 'packet')
+    return [Out(ret=p, event=('recv', ()))] + [Out(exc=VExc(e)) for e in (
+        'EOFError', 'OSError', 'Error', 'PacketDecodeError', 'Exception', 'CancelledError')]
+
+
+sftp_recv_packet_stub.modifies = ()
+
+
+def sftp_dispatch_stub(cx):
+    """await self._process_packet(...) by the client handler's contract (Spec sftp_process_packet): the answered
+    request is resolved; a response nobody waits for runs the cleanup (every request failed, reader/writer gone)"""
+    k = z3.Int(fresh_name('k'))
+    outs = [Out(event=('dispatched', tuple(cx.args)))]
+    for o in sftp_cleanup_call(cx):
+        o.event = ('dispatched+cleanup', tuple(cx.args))
+        outs.append(o)
+    return outs
+
+
+sftp_dispatch_stub.modifies = tuple(sftp_cleanup.modifies)
+sftp_dispatch_stub.spec_getter = lambda: sftp_process_packet
+
+
+def sftp_ends(c, new=False):
+    gv = c.newv if new else c.oldv
+    return z3.Implies(z3.Not(isn(gv('_reader'))), z3.Not(isn(gv('_writer'))))
+
+
+def sftp_cleaned_up_once(c):
+    return delta(c, 'ghost_base_cleanups') == 1
+
+
+sftp_recv_packets = Spec(
+    PROP, 'sftp', 'SFTPHandler.recv_packets', self_class='SFTPClientHandler', classes=SFTP_CLASSES,
+    stubs={'self.recv_packet': sftp_recv_packet_stub, 'self._process_packet': sftp_dispatch_stub,
+           'self._cleanup': sftp_cleanup_call, 'self.log_received_packet': noop('log'),
+           'packet.get_byte': may_raise(ret('int', 'pkttype'), 'PacketDecodeError'),
+           'packet.get_uint32': may_raise(ret('int', 'pktid'), 'PacketDecodeError'),
+           'SFTPBadMessage': ret('opt[opaque:Exc]', 'bad_message'), 'str': ret('str', 'text')},
+    loops={1: LoopSpec(header='self._reader', invariant=lambda c: z3.And(
+        sftp_registry_inv(c, new=True), sftp_ends(c, new=True),
+        delta(c, 'ghost_base_cleanups') == b2i(isn(c.newv('_reader'))),
+        z3.Implies(isn(c.newv('_reader')), empty_table(c, '_requests'))))},
+    local_types={'packet': 'opaque:SFTPPacket', 'pkttype': 'int', 'pktid': 'int'},
+    requires=lambda c: z3.And(sftp_registry_inv(c), z3.Not(isn(c.oldv('_reader'))), sftp_ends(c)),
+    ensures=[('session-ends-with-exactly-one-cleanup', sftp_cleaned_up_once),
+             ('every-outstanding-request-resolved', lambda c: empty_table(c, '_requests'))],
+    raises={'CancelledError': True,
+            # whatever else ends the loop: not before the cleanup has failed the outstanding requests
+            'Exception': sftp_cleaned_up_once})
+
+
+# ------------------------------------------------------------------------------------------------
+# The functions that must REACH the completing ones (audit C09-r2, findings 4 and 6): the peer's EOF is handed to
+# the flush; resuming / starting to read runs the flush with reading un-paused; late data is dropped once the local
+# side is closing; data is accepted only while the receive side is open (no data_received after eof_received).
+RECV_MOD = sorted(set(flush_recv.modifies))
+flush_recv_call = contract_stub(lambda: flush_recv)
+
+
+def recv_exit_clauses():
+    return [('close-stays-pending-only-while-data-is-buffered', close_pending_has_data),
+            ('eof-stays-pending-only-behind-undelivered-data', eof_pending_has_reason),
+            ('one-cleanup-per-close', hs_step),
+            ('class-inv', lambda c: z3.And(hs_inv(c, new=True), chan_eof_inv(c, new=True)))]
+
+
+def recv_requires(c):
+    return z3.And(hs_inv(c), decoder_inv(c), chan_eof_inv(c),
+                  # class invariant of the receive side between two atomic steps (proved at every exit of the
+                  # functions in this section and of _flush_recv_buf / _process_close)
+                  close_pending_has_data(Flip(c)), eof_pending_has_reason(Flip(c)))
+
+
+process_eof = Spec(
+    PROP, 'channel', 'SSHChannel._process_eof', self_class='SSHChannel',
+    params=dict(_pkttype='int', _pktid='int', packet='obj:SSHPacket'),
+    classes=dict(C9_CHAN_CLASSES, **PACKET_CLASSES), inline=dict(PACKET_INLINE), truthy=PACKET_TRUTHY,
+    falsy_sorts={'Any'}, lemmas=starting_is_truthy,
+    stubs={'self._flush_recv_buf': flush_recv_call},
+    requires=lambda c: z3.And(recv_requires(c), packet_wf(c, c.argv('packet'))),
+    modifies=RECV_MOD,
+    ensures=recv_exit_clauses() + [
+        ('eof-noted', lambda c: c.old('_recv_state') == z3.StringVal('open')),
+        ('receive-side-past-open', lambda c: c.new('_recv_state') != z3.StringVal('open')),
+        # the session hears EOF exactly once, as soon as nothing is left to deliver
+        ('eof-told-exactly-once-when-reached', lambda c: delta(c, 'ghost_eof_told') == b2i(z3.And(
+            c.new('_recv_state') != z3.StringVal('eof_pending'), attached(c, '_session'))))],
+    raises={'ProtocolError': True, 'PacketDecodeError': True, 'Exception': True})
+
+resume_reading = Spec(
+    PROP, 'channel', 'SSHChannel.resume_reading', self_class='SSHChannel', classes=C9_CHAN_CLASSES,
+    falsy_sorts={'Any'}, lemmas=starting_is_truthy,
+    stubs={'self._flush_recv_buf': flush_recv_call},
+    requires=recv_requires, modifies=RECV_MOD,
+    ensures=recv_exit_clauses(),
+    raises={'ProtocolError': True, 'Exception': True})
+
+start_reading = Spec(
+    PROP, 'channel', 'SSHChannel._start_reading', self_class='SSHChannel', classes=C9_CHAN_CLASSES,
+    falsy_sorts={'Any'}, lemmas=starting_is_truthy,
+    stubs={'self._flush_recv_buf': flush_recv_call},
+    requires=recv_requires, modifies=RECV_MOD,
+    ensures=recv_exit_clauses(),
+    raises={'ProtocolError': True, 'Exception': True})
+
+
+def accept_untouched(c):
+    return z3.And(c.new('_recv_buf') == c.old('_recv_buf'), z3.BoolVal(len(c.events('deliver')) == 0))
+
+
+accept_data = Spec(
+    PROP, 'channel', 'SSHChannel._accept_data', self_class='SSHChannel',
+    params=dict(data='bytes', datatype='opt[int]'), classes=C9_CHAN_CLASSES, falsy_sorts={'Any'},
+    lemmas=starting_is_truthy,
+    stubs={'self._deliver_data': reentrant(ordered_deliver_stub)},
+    requires=lambda c: z3.And(recv_requires(c), c.old('_recv_state') == z3.StringVal('open')),
+    modifies=sorted({'_recv_buf', '_recv_window', '_recv_paused'} | set(CLOSE_MODIFIES)),
+    ensures=[
+        # docstring: "Data sent after the channel has been closed by the session is dropped" - otherwise late data
+        # re-fills a channel nobody reads any more and the peer's CLOSE waits behind it for ever
+        ('late-data-dropped-once-the-local-side-is-closing', lambda c: z3.Implies(
+            one_of(c.old('_send_state'), ['close_pending', 'closed']), accept_untouched(c))),
+        ('buffered-only-while-paused', lambda c: z3.Or(
+            c.new('_recv_buf') == c.old('_recv_buf'), z3.Length(c.new('_recv_buf')) == 0,
+            c.truthy(c.oldv('_recv_paused'), c.old_state)))] + recv_exit_clauses(),
+    raises={'ProtocolError': True, 'Exception': True})
+
+
+def accept_only_while_open_stub(cx):
+    """self._accept_data(...) at its call sites in the packet handlers: RFC 4254 5.3 - no data after EOF/CLOSE"""
+    cx.require('data-accepted-only-while-the-receive-side-is-open',
+               cx.selff('_recv_state').z == z3.StringVal('open'))
+    return [Out(event=('accept', tuple(cx.args))), Out(exc=VExc('ProtocolError')), Out(exc=VExc('Exception'))]
+
+
+accept_only_while_open_stub.modifies = ()
+accept_only_while_open_stub.spec_getter = lambda: accept_data
+
+process_data_order = Spec(
+    PROP, 'channel', 'SSHChannel._process_data', self_class='SSHChannel',
+    params=dict(_pkttype='int', _pktid='int', packet='obj:SSHPacket'),
+    classes=dict(C9_CHAN_CLASSES, **PACKET_CLASSES), inline=dict(PACKET_INLINE), truthy=PACKET_TRUTHY,
+    stubs={'self._accept_data': accept_only_while_open_stub},
+    requires=lambda c: packet_wf(c, c.argv('packet')),
+    ensures=[('data-handed-on-exactly-once', lambda c: z3.BoolVal(len(c.events('accept')) == 1))],
+    raises={'ProtocolError': True, 'PacketDecodeError': True, 'Exception': True})
+
+def only_stderr(setz):
+    d = z3.Int(fresh_name('d'))
+    return z3.ForAll([d], z3.Implies(z3.Select(setz, d), d == 1))
+
+
+process_extended_data_order = Spec(
+    PROP, 'channel', 'SSHChannel._process_extended_data', self_class='SSHChannel',
+    params=dict(_pkttype='int', _pktid='int', packet='obj:SSHPacket'),
+    classes=dict(C9_CHAN_CLASSES, SSHChannel=dict(C9_CHAN_FIELDS, _read_datatypes='set[int]'), **PACKET_CLASSES),
+    inline=dict(PACKET_INLINE), truthy=PACKET_TRUTHY,
+    stubs={'self._accept_data': accept_only_while_open_stub},
+    # read datatypes are {} or {EXTENDED_DATA_STDERR} for every channel class (same precondition as in C08; the
+    # debug-log lookup _data_type_names[datatype] knows no other)
+    requires=lambda c: z3.And(packet_wf(c, c.argv('packet')), only_stderr(c.old('_read_datatypes'))),
+    ensures=[('data-handed-on-exactly-once', lambda c: z3.BoolVal(len(c.events('accept')) == 1))],
+    raises={'ProtocolError': True, 'PacketDecodeError': True, 'Exception': True})
+
+
+# ------------------------------------------------------------------------------------------------
+# Queue of received CHANNEL requests (_request_queue): the channel-level twin of the global-request queue above
+# (audit finding 7).  Q: whenever the queue is non-empty its head - and only its head - has been started; so when a
+# request completes and the queue is non-empty the next one is started, whatever the request, its result or
+# want_reply were.  A reply goes out iff the request asked for one and our side is not closing, SUCCESS iff the
+# result is true; requests complete from the front only.
+CQE = 'tuple[str,opaque:Pkt,bool]'        # (request, packet, want_reply)
+CQ_T = 'seq[' + CQE + ']'
+CQ_FIELDS = {'_request_queue': CQ_T, '_send_state': 'str', '_recv_state': 'str', '_session': 'opt[obj:Session]',
+             'ghost_cq_appended': 'int', 'ghost_cq_started': 'int'}
+CQ_CLASSES = dict({'SSHChannel': CQ_FIELDS, 'Session': {}, 'Handler': {}}, **PACKET_CLASSES)
+CQ_MOD = ['_request_queue', 'ghost_cq_started']
+
+
+def cq_completed(g):
+    return g('ghost_cq_appended') - z3.Length(g('_request_queue'))
+
+
+def cq_Q(c, new=False):
+    g = c.new if new else c.old
+    return z3.And(g('ghost_cq_started') - cq_completed(g) == b2i(z3.Length(g('_request_queue')) > 0),
+                  cq_completed(g) >= 0)
+
+
+def cq_head(c, started):
+    return z3.And(z3.Length(c.old('_request_queue')) > 0,
+                  c.old('ghost_cq_started') - cq_completed(c.old) == started, cq_completed(c.old) >= 0)
+
+
+def cq_suffix(c, strict):
+    q0, q1 = c.old('_request_queue'), c.new('_request_queue')
+    off = z3.Length(q0) - z3.Length(q1)
+    k = z3.Int(fresh_name('k'))
+    return z3.And(off >= (1 if strict else 0),
+                  z3.ForAll([k], z3.Implies(z3.And(0 <= k, k < z3.Length(q1)), q1[k] == q0[k + off])))
+
+
+def cq_handler_stub(cx):
+    """handler(packet): servicing of the head request starts; the handler answers True/False, or None when it will
+    call _report_response itself later (from a task)"""
+    return [Out(ret=cx.fresh('opt[bool]', 'result'), sets={'ghost_cq_started': bump(cx, 'ghost_cq_started')},
+                event=('handler', tuple(cx.args)))]
+
+
+cq_handler_stub.modifies = ('ghost_cq_started',)
+
+
+def cq_report_call(cx):
+    """self._report_response(result) inside _service_next_request, by the contract of _report_response; for a
+    request nobody handles, reporting the failure IS its servicing (started is bumped here)"""
+    from pyvc.engine import CallCtx
+    handled = any(e[0] == 'handler' for e in cx.st.events)
+    s2 = cx.st.fork()
+    started = cx.selff('ghost_cq_started') if handled else bump(cx, 'ghost_cq_started')
+    s2.set_field(cx.ex.self_ref, 'ghost_cq_started', started)
+    cx2 = CallCtx(cx.ex, s2, cx.key, cx.ex.self_ref, list(cx.args), {}, cx.node)
+    outs = contract_stub(lambda: cq_report)(cx2)
+    for o in outs:
+        o.sets.setdefault('ghost_cq_started', started)
+        o.event = ('report', tuple(cx.args))
+    for lab, z in cx2.requires:
+        cx.require('report:' + lab, z)
+    return outs
+
+
+cq_report_call.modifies = tuple(CQ_MOD)
+cq_report_call.spec_getter = lambda: cq_report
+
+
+def cq_reply_stub(cx):
+    t = concrete_int(cx.args[0])
+    return [Out(event=('reply' if t in (99, 100) else 'packet', (cx.args[0],)))]     # CHANNEL_SUCCESS / _FAILURE
+
+
+cq_reply_stub.modifies = ()
+
+
+def cq_direct_reply(c):
+    n = len(c.events('reply'))
+    head = from_z3(c.old('_request_queue')[0], CQE).items
+    due = z3.And(head[2].z, z3.Not(one_of(c.old('_send_state'), ['close_pending', 'closed'])))
+    conj = [z3.BoolVal(n <= 1), z3.BoolVal(n == 1) == due]
+    for e in c.events('reply'):
+        conj.append((e[1][0].z == 99) == c.argv('result').z)
+    return z3.And(*conj)
+
+
+cq_report = Spec(
+    PROP, 'channel', 'SSHChannel._report_response', self_class='SSHChannel',
+    params=dict(result='bool'), classes=CQ_CLASSES,
+    stubs={'self.send_packet': cq_reply_stub,
+           'self._session.session_started': may_raise(noop('session_started'), 'Exception'),
+           'self.resume_reading': may_raise(noop('resume_reading'), 'ProtocolError', 'Exception'),
+           'self._service_next_request': contract_stub(lambda: cq_service)},
+    requires=lambda c: cq_head(c, 1),
+    modifies=CQ_MOD,
+    ensures=[('next-queued-request-is-started-whatever-this-one-was', lambda c: cq_Q(c, new=True)),
+             ('this-request-answered-iff-it-asked-and-we-are-not-closing', cq_direct_reply),
+             ('fifo', lambda c: cq_suffix(c, strict=True))],
+    # the session start callback / the first flush may fail: that ends the connection (the caller is the packet
+    # dispatcher or a task reaped by the connection); the session is gone only after a cleanup
+    raises={'ProtocolError': True, 'AssertionError': lambda c: isn(c.oldv('_session')), 'Exception': True})
+
+cq_service = Spec(
+    PROP, 'channel', 'SSHChannel._service_next_request', self_class='SSHChannel', classes=CQ_CLASSES,
+    stubs={'map_handler_name': ret('str', 'hname'), 'getattr': ret('opt[obj:Handler]', 'handler'),
+           'handler': cq_handler_stub, 'self._report_response': cq_report_call},
+    requires=lambda c: cq_head(c, 0),
+    modifies=CQ_MOD,
+    ensures=[('head-started-or-completed-and-successor-started', lambda c: cq_Q(c, new=True)),
+             ('fifo', lambda c: cq_suffix(c, strict=False))],
+    raises={'ProtocolError': True, 'AssertionError': lambda c: isn(c.oldv('_session')), 'Exception': True})
+
+
+def cq_append_stub(cx):
+    """self._request_queue.append((request, packet, want_reply)): list.append, the packet abstracted to a token"""
+    r, _p, w = cx.args[0].items
+    q = cx.selff('_request_queue')
+    x = to_z3(VTuple([r, cx.fresh('opaque:Pkt', 'pkt'), w]), CQE)
+    return [Out(sets={'_request_queue': VSeq(z3.Concat(q.z, z3.Unit(x)), CQE),
+                      'ghost_cq_appended': bump(cx, 'ghost_cq_appended')}, event=('queued', (w,)))]
+
+
+cq_append_stub.modifies = ('_request_queue', 'ghost_cq_appended')
+
+cq_process = Spec(
+    PROP, 'channel', 'SSHChannel._process_request', self_class='SSHChannel',
+    params=dict(_pkttype='int', _pktid='int', packet='obj:SSHPacket'), classes=CQ_CLASSES,
+    inline=dict(PACKET_INLINE), truthy=PACKET_TRUTHY,
+    stubs={'self._request_queue.append': cq_append_stub,
+           'self._service_next_request': contract_stub(lambda: cq_service)},
+    requires=lambda c: z3.And(cq_Q(c), packet_wf(c, c.argv('packet'))),
+    modifies=CQ_MOD + ['ghost_cq_appended'],
+    ensures=[('request-queued-exactly-once', lambda c: z3.And(delta(c, 'ghost_cq_appended') == 1,
+                                                              z3.BoolVal(len(c.events('queued')) == 1))),
+             ('head-of-a-non-empty-queue-is-in-service', lambda c: cq_Q(c, new=True))],
+    raises={'ProtocolError': True, 'PacketDecodeError': True,
+            'AssertionError': lambda c: isn(c.oldv('_session')), 'Exception': True})
+
+
+# ------------------------------------------------------------------------------------------------
+# Close entry points and open/creation paths (audit finding 10): each must reach _force_close / the channel close.
+conn_abort = Spec(
+    PROP, 'connection', 'SSHConnection.abort', self_class='SSHConnection', classes=C9_CONN_CLASSES,
+    stubs={'self._force_close': force_close_call}, modifies=force_close.modifies,
+    ensures=[('force-close-on-every-path', lambda c: z3.BoolVal(len(c.events('force_close')) == 1)),
+             ('one-cleanup-iff-still-open', lambda c: delta(c, 'ghost_cleanup_sched') == b2i(attached(c, '_transport'))),
+             ('transport-cleared', lambda c: isn(c.newv('_transport')))],
+    raises={})
+
+
+def recv_handler_stub(cx):
+    """self._recv_handler(): one step of the input state machine: consumed something (True) / needs more (False),
+    or fails with a protocol-level DisconnectError or with any other exception"""
+    sets = {'_inpbuf': cx.fresh('bytes', 'inpbuf')}
+    return [Out(ret=cx.fresh('bool', 'more'), sets=sets),
+            Out(exc=VExc('DisconnectError'), sets=sets, event=('handler_failed', ())),
+            Out(exc=VExc('Exception'), sets=sets, event=('handler_failed', ()))]
+
+
+recv_handler_stub.modifies = ('_inpbuf',)
+
+recv_data = Spec(
+    PROP, 'connection', 'SSHConnection._recv_data', self_class='SSHConnection', classes=C9_CONN_CLASSES,
+    stubs={'self._reset_keepalive_timer': noop('reset_keepalive'), 'self._recv_handler': recv_handler_stub,
+           'self._send_disconnect': noop('send_disconnect'), 'self._force_close': force_close_call,
+           # internal_error() reports and ends in _force_close itself (not under contract here)
+           'self.internal_error': noop('internal_error')},
+    loops={1: LoopSpec(header='self._inpbuf and self._recv_handler()', invariant=lambda c: z3.And(
+        delta(c, 'ghost_cleanup_sched') == 0, c.eq(c.newv('_transport'), c.oldv('_transport'))))},
+    ensures=[('an-input-error-always-closes-the-connection', lambda c: z3.BoolVal(
+        len(c.events('handler_failed')) == len(c.events('force_close')) + len(c.events('internal_error')))),
+        ('peer-is-told-before-we-close', lambda c: z3.BoolVal(
+            [e[0] for e in c.events() if e[0] in ('send_disconnect', 'force_close')]
+            in ([], ['send_disconnect', 'force_close'])))],
+    raises={})
+
+for _label, _rk, _wk in STREAM_SHAPES:
+    Spec(PROP, 'stream', 'SSHStreamSession.resume_writing', self_class='SSHStreamSession',
+         classes=STREAM_CLASSES, stubs={'self._unblock_drain': unblock_drain_contract},
+         setup=stream_setup(_rk, _wk), cases=[(_label, {})],
+         ensures=[('writing-resumed', lambda c: z3.Not(c.new('_write_paused'))),
+                  # back-pressure is over: whoever waits in drain() is let go
+                  ('every-drain-waiter-done', all_drain_waiters_done)],
+         raises={})
+
+
+# ---- _finish_open_request: a refused incoming open schedules the channel's cleanup ----------------------
+def await_session_stub(cx):
+    """await <the session factory's coroutine>: a session, or the application's refusal (ChannelOpenError), or
+    anything else"""
+    return [Out(ret=cx.fresh('obj:Session', 'session')), Out(exc=VExc('ChannelOpenError')), Out(exc=VExc('Exception'))]
+
+
+await_session_stub.modifies = ()
+
+
+def wrap_session_stub(cx):
+    return VTuple([cx.ex.self_ref, cx.args[0]])
+
+
+finish_open = Spec(
+    PROP, 'channel', 'SSHChannel._finish_open_request', self_class='SSHChannel',
+    params=dict(result='obj:Session'), classes=C9_CHAN_CLASSES,
+    stubs={'inspect.isawaitable': ret('bool', 'awaitable'), 'await result': await_session_stub,
+           'self._wrap_session': wrap_session_stub,
+           'self._conn.send_channel_open_confirmation': noop('open_confirmation'),
+           'self._conn.send_channel_open_failure': noop('open_failure'),
+           'self._session.connection_made': may_raise(noop('connection_made'), 'ChannelOpenError', 'Exception'),
+           'self._loop.call_soon': call_soon_stub},
+    requires=lambda c: z3.And(chan_registry_inv(c), z3.Not(isn(c.oldv('_send_chan')))),
+    ensures=[
+        ('opened-or-refused-with-cleanup', lambda c: z3.Or(
+            z3.And(z3.BoolVal(len(c.events('open_confirmation')) == 1 and len(c.events('open_failure')) == 0),
+                   c.new('_send_state') == z3.StringVal('open'), c.new('_recv_state') == z3.StringVal('open'),
+                   delta(c, 'ghost_cleanup_sched') == 0),
+            # refused (by the application, or because the connection went away meanwhile): the channel is cleaned
+            # up exactly once - it is still registered, and wait_closed() waits for that
+            z3.And(delta(c, 'ghost_cleanup_sched') == 1,
+                   z3.BoolVal(len(c.events('open_failure')) == 1) == attached(c, '_conn'))))],
+    raises={'Exception': True})
+
+
+# ---- SSHClientChannel.create, final step: a refused shell/exec/subsystem request closes the channel -------
+def create_tail(fn):
+    body = fn.body
+    for i, st_ in enumerate(body):
+        if isinstance(st_, _ast9.If) and isinstance(st_.test, _ast9.Name) and st_.test.id == 'command':
+            return body[i:]
+    raise Unsupported('SSHClientChannel.create: `if command:` not found')
+
+
+def _bind_create_locals(ex, st):
+    st.env.setdefault('result', VNone)
+
+
+create_session_tail = Spec(
+    PROP, 'channel', 'SSHClientChannel.create', self_class='SSHChannel', region=create_tail,
+    params=dict(session_factory='any', command='opt[str]', subsystem='opt[str]', env='any', request_pty='bool',
+                term_type='opt[str]', term_size='any', term_modes='any', x11_forwarding='any',
+                x11_display='opt[str]', x11_auth_path='opt[str]', x11_single_connection='bool',
+                agent_forwarding='bool'),
+    classes=C9_CHAN_CLASSES, falsy_sorts={'Any'},
+    stubs={'self._make_request': ret('opt[bool]', 'request_result'), 'String': ret('bytes', 'string'),
+           'self.close': noop('close'), 'self._session.session_started': noop('session_started'),
+           'self._start_reading': ret('any', 'coro'), 'self._conn.create_task': noop('create_task')},
+    requires=lambda c: z3.And(z3.Not(isn(c.oldv('_session'))), z3.Not(isn(c.oldv('_conn')))),
+    ensures=[('session-started-and-reading-started', lambda c: z3.BoolVal(
+        len(c.events('session_started')) == 1 and len(c.events('create_task')) == 1 and len(c.events('close')) == 0))],
+    raises={'ChannelOpenError': lambda c: z3.BoolVal(len(c.events('close')) == 1 and
+                                                     len(c.events('session_started')) == 0)})
+create_session_tail.no_replay = True       # a region: the native harness would run create() from its first line
+
+ASSUMPTIONS.extend([
+    'receive side (audit C09-r2): close_pending_has_data / eof_pending_has_reason / chan_eof_inv / hs_inv are the '
+    'class invariant of the receive side between atomic steps: required by resume_reading, _start_reading, '
+    '_accept_data, _process_eof and proved at every exit (raise paths included) of _flush_recv_buf and at the exits '
+    'of those four and of _process_close; `_recv_paused` is of unknown dynamic type (bool or the string '
+    '"starting"): only the definitional fact "a value equal to \'starting\' is truthy" is assumed',
+    'ghost_final_told is a ghost variable local to one run of a _cleanup (False at entry by a setup hook); the order '
+    'clause "nothing after the final notification" is a pre-at-call obligation at every resolve / channel close / '
+    'listener close / auth cancel / error handler call, so it also holds inside loop bodies',
+    'channel request queue: handlers answer True/False, or None when they call _report_response later; '
+    'session_started() / resume_reading() inside _report_response may raise (that ends the connection); the '
+    'packet stored in a queue entry is a token',
+    'SFTP receive loop: recv_packet() may raise any exception class (the connection error is passed on as it is); '
+    '_process_packet is taken by the client handler contract (resolved, or cleanup on an unknown id)',
+    '_recv_data: internal_error() is counted as closing the connection (it ends in _force_close; not under '
+    'contract); _finish_open_request: the session factory coroutine may return a session, refuse with '
+    'ChannelOpenError or raise anything',
+])
